@@ -34,6 +34,26 @@ CAST_DOC = {
     "m": {"a": "1", "b": "true", 0: "5", 2.5: "FALSE", None: "6", "c": {"d": "7", "e": ["8", "t"]}},
     "deep": {"a": {"b": {"c": "7", "d": ["1", "t", {"e": "true"}]}}},
 }
+TWINS = {"tw": {1: {"v": "10", "w": ["1"]}, "1": {"v": "20", "w": ["2"]}, None: {"v": "30"}, "None": {"v": "40"},
+                2.5: ["5", "x"], "2.5": ["6", "true"], "a/b": {"c": {"v": "7"}}, "a": {"b/c": {"v": "8"}, "b": {"c": {"v": "9"}}}},
+         "k": "3"}
+
+
+def add_twins(rng, d):
+    """give some mapping a key whose str() equals a sibling key of another type (1 / "1", None / "None")"""
+    maps = [n for _, n in G.all_nodes(d) if type(n) is dict and n]
+    if not maps:
+        return d
+    m = rng.choice(maps)
+    for k in list(m):
+        v = m[k]
+        tw = str(k) if type(k) is not str else (int(k) if k.lstrip("-").isdigit() else None)
+        if tw is not None and tw not in m and type(v) in (dict, list):
+            m[tw] = _stringy(rng, M.deep_copy(v), 0.6)
+            break
+    return d
+
+
 CAST_LIST = ["3", "true", ["4", "x"], {"a": "5", 0: "false", None: "6"}, 7, "abc"]
 
 
@@ -63,6 +83,11 @@ def strata(tier):
     for combo in ([A, B], [B, A], [A, B, Cc], [Cc, B, A], [Dd, E], [E, Dd], [E, F], [F, E], [Dd, E, F, B],
                   [B, Gg], [Gg, B], [A, A], [E, E, F], [B, B]):
         yield {"rules": combo, "doc": CAST_DOC, "cls": "overlap"}
+    for cast in ([["str", "int"]], [["str", "bool"]]):
+        for parts in ([{"p": "prim", "v": "tw"}, {"p": "map"}, {"p": "prim", "v": "v"}], [{"p": "prim", "v": "tw"}, {"p": "map"}, {"p": "mol"}],
+                      [{"p": "prim", "v": "tw"}, {"p": "mol"}, {"p": "mol"}, {"p": "mol"}], [{"p": "mol"}, {"p": "mol"}, {"p": "mol"}],
+                      [{"p": "prim", "v": "tw"}, {"p": "map"}, {"p": "list"}]):
+            yield {"rules": [{"path": PC.mkpath(parts), "cond": {"c": "null"}, "cast": cast}], "doc": TWINS, "cls": "twin-keys"}
     for j in range(60 if tier == "quick" else 300):
         yield gen(G.rng_for("C15-strata", j), tier)
 
@@ -82,6 +107,8 @@ def _stringy(rng, x, p=0.5):
 def gen(rng, tier):
     quick = tier == "quick"
     doc = _stringy(rng, G.doc(rng, 3 if quick else 5, 5 if quick else 6), rng.choice([0.3, 0.6]))
+    if rng.random() < 0.25:
+        doc = add_twins(rng, doc)
     rules = []
     n = rng.randint(1, 4)
     for i in range(n):
